@@ -44,6 +44,8 @@ var zones = []*time.Location{
 	time.FixedZone("X", -7*3600),
 	time.FixedZone("Y", 5*3600+1800),
 	time.FixedZone("Z", -3600*11-60),
+	time.FixedZone("LMT", 2*3600+30), // positive sub-minute offsets survive Go's binary time encoding (negative ones do not)
+	time.FixedZone("", 2*3600),
 }
 
 const timeBase = int64(1_600_000_000) // seconds
@@ -228,6 +230,9 @@ func (r *Rng) richTime() time.Time {
 	off := r.Range(-14*60, 14*60) * 60 // whole-minute zone offsets
 	if off == -60 {
 		off = 0 // Go's binary time encoding reserves the offset of -1 minute
+	}
+	if off >= 0 && r.P(25) {
+		off += r.Intn(60) // east of UTC sub-minute offsets are preserved by Go's encoding
 	}
 	if r.P(30) {
 		return time.Unix(sec, int64(r.Intn(1_000_000_000))).UTC()
